@@ -36,15 +36,19 @@ def main(argv):
     ap.add_argument('--summary', default='')
     ap.add_argument('--needs', default='')
     ap.add_argument('--skip-suite', action='store_true')
+    ap.add_argument('--existing', action='store_true', help='re-confirm seeded/<id>/patch.diff and DEMO.py as they are (worktree argument ignored)')
     ns = ap.parse_args(argv)
     d = os.path.join(SEEDED, ns.sid)
     os.makedirs(d, exist_ok=True)
-    diff = sh(['git', '-C', ns.worktree, 'diff']).stdout
-    if not diff.strip():
-        raise SystemExit('no uncommitted change in %s' % ns.worktree)
-    with open(os.path.join(d, 'patch.diff'), 'w') as f:
-        f.write(diff)
-    shutil.copy(os.path.join(ns.worktree, 'DEMO.py'), os.path.join(d, 'DEMO.py'))
+    if ns.existing:
+        diff = open(os.path.join(d, 'patch.diff')).read()
+    else:
+        diff = sh(['git', '-C', ns.worktree, 'diff']).stdout
+        if not diff.strip():
+            raise SystemExit('no uncommitted change in %s' % ns.worktree)
+        with open(os.path.join(d, 'patch.diff'), 'w') as f:
+            f.write(diff)
+        shutil.copy(os.path.join(ns.worktree, 'DEMO.py'), os.path.join(d, 'DEMO.py'))
     files = re.findall(r'^\+\+\+ b/(.*)$', diff, flags=re.M)
     scratch = '/tmp/seed_verify_%s' % ns.sid
     sh(['git', '-C', '/repo', 'worktree', 'remove', '--force', scratch])
